@@ -117,6 +117,13 @@ def edit_torrent(metafile: str, args: dict) -> dict:
             meta["httpseeds"] = val
 
     meta["info"] = info
-    os.remove(metafile)
-    pyben.dump(meta, metafile)
+    data = pyben.dumps(meta)
+    tempfile = metafile + ".tmp"
+    try:
+        with open(tempfile, "wb") as fd:
+            fd.write(data)
+        os.replace(tempfile, metafile)
+    finally:
+        if os.path.exists(tempfile):
+            os.remove(tempfile)
     return meta
